@@ -126,7 +126,7 @@ Lemma run_simple_idle sc m S t steps f : idle_except m S ->
   idle_except (snd (m_run_simple sc m t steps f)) S /\ not_running (snd (m_run_simple sc m t steps f)) t.
 Proof.
   intro H. unfold run_simple. destruct steps as [|[d|d|w hp] rest]; try (now apply park_idle).
-  destruct f as [[d|j|]| | |d|d| | |n|]; try (now apply park_idle); cbn [snd];
+  destruct f as [[d|j| |k]| | |d|d| | |n|]; try (now apply park_idle); cbn [snd];
     (split; [first [now apply ie_end|now apply ie_delete]|first [apply nr_del|apply nr_delete]]).
 Qed.
 
@@ -171,28 +171,30 @@ Proof.
     destruct (frame sc <? wdue (min_w x r)); cbn [fst snd]; auto.
   - destruct (pend sc) as [|x r]; cbn [fst snd]; auto.
     destruct (frame sc <? wdue (min_w x r)); cbn [fst snd]; auto.
-    pose proof (run_thr_idle (mkSched (remove_w (wseq (min_w x r)) (x :: r)) (paused sc) (frame sc) (clock sc) (sseq sc))
+    pose proof (run_thr_idle (mkSched (remove_w (wseq (min_w x r)) (x :: r)) (paused sc) (frame sc) (clock sc) (sseq sc) (lvars sc))
                              m (wthr (min_w x r)) H) as H1.
     destruct (m_run_thr _ m (wthr (min_w x r))) as [sa m1]. cbn [snd] in H1. now apply IH.
 Qed.
 
 Theorem step_idle sc m o : all_idle m -> all_idle (snd (fst (m_step (sc, m) o))).
 Proof.
-  intro H. unfold m_step. destruct o as [lbl np prog args|r|r|r|r|a b|a b|dt| |]; cbn [step_op];
+  intro H. unfold m_step. destruct o as [lbl np pt prog args|r|r|r|r|a b|a b|dt| |]; cbn [step_op];
     try (cbn [fst snd]; now apply ie_on_heap).
   - unfold m_begin. destruct (call_begin lbl (fst m)) as [h t] eqn:Eb. destruct lbl.
     + pose proof (ie_append m [] h t H) as H1.
-      set (l0 := match prog with l :: _ => l | [] => mkLevel [] [] FFall end).
-      destruct (run_st_idle (tl prog) sc (h, snd m ++ [(t, VRun)]) [t] t (lpre l0) (lpost l0) (resolve (bind np args) (lfin l0)) H1) as [H2 N2].
-      destruct (m_run_st sc (h, snd m ++ [(t, VRun)]) t (lpre l0) (tl prog) (lpost l0) (resolve (bind np args) (lfin l0))) as [sa m2].
+      match goal with |- context [match ?x with (_, _) => _ end] =>
+        match x with context [prologue] => destruct x as [[params locvals] lv] end end.
+      match goal with |- context [m_run_st ?a ?b ?c ?d ?e ?f ?g] =>
+        destruct (run_st_idle e a b [t] c d f g H1) as [H2 N2];
+        destruct (m_run_st a b c d e f g) as [sa m2] end.
       cbn [snd] in *. pose proof (ie_pop m2 [] t H2 N2) as H3.
       pose proof (resume_idle (weight sa) sa (m_tail t m2) H3) as H4.
       destruct (m_resume (weight sa) sa (m_tail t m2)) as [[sc3 m3] ok]. cbn [fst snd] in *.
       unfold m_finish. now apply ie_on_heap.
     + cbn [fst snd]. unfold m_finish. apply ie_on_heap. intros u st Hl. eapply H; eauto.
   - exact H.
-  - pose proof (resume_idle (weight (mkSched (pend sc) (paused sc) (clock sc) (clock sc) (sseq sc)))
-                            (mkSched (pend sc) (paused sc) (clock sc) (clock sc) (sseq sc)) m H) as H1.
+  - pose proof (resume_idle (weight (mkSched (pend sc) (paused sc) (clock sc) (clock sc) (sseq sc) (lvars sc)))
+                            (mkSched (pend sc) (paused sc) (clock sc) (clock sc) (sseq sc) (lvars sc)) m H) as H1.
     destruct (m_resume _ _ m) as [[sc3 m3] ok]. exact H1.
   - cbn [fst snd]. intros u st Hl. discriminate.
 Qed.
